@@ -3,7 +3,7 @@ import os, time
 import sympy as sp
 from vlib import core, rvc, native
 from vlib.core import Ob
-from vlib.rvc import D, Mx, Exec, Ret
+from vlib.rvc import D, Mx, Exec, Ret, SInt
 
 META = {
     'level': 'proof',
@@ -265,6 +265,61 @@ def job_cbspl(seed, nbreak=5):
     return obs
 
 
+def job_cbspl_allN(seed):
+    """PotentialFunctionCBSPL for ANY number of break points: CalculateDF(i, r) == d CalculateF / d lam_(i + nexcl) with a symbolic knot window index and a symbolic parameter index
+    (enumerated by the offset of the parameter relative to the window: before, one of the four window coefficients, after)"""
+    import z3
+    rvc.reset()
+    cls = 'PotentialFunctionCBSPL'
+    relpath = 'csg/src/libcsg/potentialfunctions/potentialfunctioncbspl.cc'
+    fns = rvc.functions(rvc.ast(relpath, cls + '::Calculate'))
+    F, DF = fns['CalculateF'][0], fns['CalculateDF'][0]
+    mf = [{'name': '%s::%s' % (cls, k), 'file': relpath, 'ast_nodes': rvc.node_count(fns[k][0]), 'route': 'RVC (symbolic window and parameter index)'} for k in ('CalculateF', 'CalculateDF')]
+    r, dr, cut = sp.Symbol('r', positive=True), sp.Symbol('dr', positive=True), sp.Symbol('rcut', positive=True)
+    M = Mx.sym('M', 4, 4)
+    w, nex = sp.Symbol('w', integer=True, nonnegative=True), sp.Symbol('nexcl', integer=True, nonnegative=True)      # w = the knot window index the code computes
+    obs = []
+    dsym = sp.Symbol('doff', integer=True)
+    for off in (-1, 0, 1, 2, 3, 4, 'before', 'after'):               # i + nexcl - w; 'before' / 'after': any offset <= -1 / >= 4
+        sym_off = isinstance(off, str)
+        kind = off
+        if sym_off:
+            off = dsym
+        class Lam:
+            """lam_: coefficient vector of symbolic length; the tangent seed sits on the coefficient with index i + nexcl"""
+            def call(s_, name, args):
+                if name == 'segment':
+                    st = SInt.ex(args[0])
+                    out = Mx(4, 1)
+                    for j in range(4):
+                        k = sp.expand(st + j - w)
+                        if not k.is_Integer:
+                            raise rvc.Unsupported('segment start %s is not the window index' % st)
+                        out.p(j, 0, D(sp.Symbol('lam[w%+d]' % int(k), real=True), 1 if (not sym_off and int(k) == off) else 0))
+                    return out
+                raise rvc.Unsupported('lam_.' + name)
+        P = rvc.Paths(); P.start()
+        rvc.CTX.base = [z3.Real('r') > 0, z3.Real('dr') > 0, z3.Real('rcut') > 0, z3.Real('r') <= z3.Real('rcut'), z3.Int('w') >= 0, z3.Int('nexcl') >= 0] + ([z3.Int('doff') <= -1] if kind == 'before' else ([z3.Int('doff') >= 4] if kind == 'after' else []))
+        this = {'cut_off_': D(cut), 'dr_': D(dr), 'nbreak_': SInt(sp.Symbol('nbreak', integer=True)), 'nexcl_': SInt(nex), 'M_': M, 'lam_': Lam()}
+        cb = {'decide': P.decide, 'to_int': lambda v: SInt(sp.Symbol('q', integer=True)), 'min': lambda a, b: SInt(w)}      # indx = min(trunc(r/dr), nbreak-2) =: w, an arbitrary window
+        def run(fn, args):
+            ex = Exec(dict(zip(rvc.params_of(fn), args)), cb, {}, this)
+            try:
+                ex.stmt(rvc.body_of(fn))
+            except Ret as rr:
+                return D.lift(rr.v)
+            raise rvc.Unsupported('no return')
+        fval = run(F, [D(r)])
+        df = run(DF, [SInt(w + off - nex), D(r)])          # the parameter index i with i + nexcl = w + off
+        if P.next():
+            raise rvc.Unsupported('unexpected second path')
+        o = rvc.identity('C07.CBSPL.allN/DF.offset%s' % (kind if sym_off else '%+d' % off), cls + '::CalculateDF', 'CalculateDF(i, r) == d CalculateF / d lam_(i + nexcl) when i + nexcl is %s the four coefficients of the knot window, for any number of break points' % ('outside' if sym_off or not (0 <= off <= 3) else 'one of'),
+                         df.v, fval.t, seed)
+        o['functions'] = mf
+        obs.append(o)
+    return obs
+
+
 def job_spline_deriv(which, seed):
     """for every spline type CalculateDerivative == d/dr Calculate: the C12 spline jobs, restricted to their derivative obligations"""
     from props import C12
@@ -297,7 +352,7 @@ def run(tier, seed, only=None):
     jobs = [(job_interaction, ('IBond', 2, seed)), (job_interaction, ('IAngle', 3, seed)), (job_interaction, ('IDihedral', 4, seed, True)), (job_interaction, ('IDihedral', 4, seed, False)),
             (job_potential, ('PotentialFunctionLJ126', PF + 'potentialfunctionlj126.cc', 2, seed)),
             (job_potential, ('PotentialFunctionLJG', PF + 'potentialfunctionljg.cc', 5, seed)),
-            (job_cbspl, (seed,)), (job_spline_deriv, ('cubic', seed)), (job_spline_deriv, ('akima', seed)), (job_spline_deriv, ('linear', seed))]
+            (job_cbspl, (seed,)), (job_cbspl_allN, (seed,)), (job_spline_deriv, ('cubic', seed)), (job_spline_deriv, ('akima', seed)), (job_spline_deriv, ('linear', seed))]
     if only:
         import re
         jobs = [j for j in jobs if re.search(only, str(j[1][0]) + j[0].__name__)]
